@@ -89,5 +89,30 @@ pub fn spawn_program(bus: &mut Bus, prng: &mut Rng, mix: &str, tokens: &Rc<Cell<
         }
     }
 
+    if mix.split(',').any(|m| m == "discovery") && n >= 2 {
+        let done = Slot::new();
+        let lifetime_mail = Mailbox::new();
+        let ndisc = 1 + prng.below(2);
+        let reports = Latch::new(ndisc as i64);
+        let a = prng.below(n as u64) as usize;
+        let ctx = mk_ctx(bus, a, format!("c{a}.churn"), prng, tokens);
+        let steps = 4 + prng.below(14);
+        bus.spawn_app(ctx.name.clone(), crate::discovery::churn(ctx, steps, done.clone(), lifetime_mail.clone(), reports.clone()));
+        for d in 0..ndisc {
+            let b = prng.below(n as u64) as usize;
+            let ctx = mk_ctx(bus, b, format!("c{b}.disc{d}"), prng, tokens);
+            bus.spawn_app(ctx.name.clone(), crate::discovery::discoverer(ctx, done.clone(), reports.clone()));
+        }
+        let b = prng.below(n as u64) as usize;
+        let ctx = mk_ctx(bus, b, format!("c{b}.lifetime"), prng, tokens);
+        bus.spawn_app(ctx.name.clone(), crate::discovery::lifetime_watcher(ctx, lifetime_mail.clone()));
+        for f in 0..prng.below(3) {
+            let b = prng.below(n as u64) as usize;
+            let ctx = mk_ctx(bus, b, format!("c{b}.finder{f}"), prng, tokens);
+            let wait = prng.chance(1, 2);
+            bus.spawn_app(ctx.name.clone(), crate::discovery::finder(ctx, wait));
+        }
+        roles_n += 3 + ndisc;
+    }
     (roles_n, slots)
 }
